@@ -16,7 +16,7 @@ SHARDS = {'quick': 16, 'thorough': 16}
 MIN_NONTRIVIAL = {'quick': 5000, 'thorough': 150000}
 REQUIRED_CLASSES = ['number-type:py', 'number-type:np.float64', 'number-type:np.int', 'number-type:ndarray', 'add', 'sub', 'mul', 'div', 'neg', 'pow-int', 'pow-pair', 'pow-float', 'pow-float-noninteger', 'reflected-number-left',
                     'number-right', 'array', 'scalar', 'different-units-same-dimension', 'total-cancellation', 'partial-cancellation',
-                    'refuse-different-dimension', 'refuse-reciprocal-dimension', 'refuse-number-plus-dimensional', 'compound-operand']
+                    'refuse-different-dimension', 'refuse-reciprocal-dimension', 'refuse-number-plus-dimensional', 'compound-operand', 'sum-of-number-and-dimensionless-unit']
 REQUIRED_MONITORS = ['base_value_compares', 'dimension_compares', 'unit_exponent_compares', 'refusals_demanded']
 ASSUMPTIONS = ['units_ref factors come from the published tables', 'rtol 1e-9 (absolute term 1e-9*max|operand base value| for sums)',
                'only total cancellation is required to drop units', 'fractional powers use positive magnitudes',
@@ -107,6 +107,10 @@ def cases(rng, tier, shard, nshards, ctx):
                 v = invert(same_dim_unit(rng, ctx, u)); kind = 'reciprocal'
             else:
                 v = None; kind = 'number'
+                if rng.random() < 0.7:
+                    # a plain number can only be added to a dimensionless quantity: written in a dimensionless UNIT with a factor
+                    u = ['a', '', rng.choice(['%', 'ppth', '[pi]', '%', 'ppth']), 1, 1]
+                    kind = 'number-and-dimensionless-unit'
             yield dict(op=op, u=u, v=v, kind=kind, xa=pick(rng), xb=pick(rng), arr=arr, side=rng.choice(['right', 'left']), numtype=rng.choice(['py', 'py', 'np.float64', 'np.int', 'ndarray']))
         elif r < 0.62:
             op = rng.choice(['mul', 'div'])
@@ -155,6 +159,8 @@ def _run(case, ctx):
     T, Q, np = ctx['T'], ctx['Q'], ctx['np']
     op, arr = case['op'], case['arr']
     classes = [op if op != 'pow' else 'pow-' + case['kind'], 'array' if arr else 'scalar']
+    if case['kind'] == 'number-and-dimensionless-unit':
+        classes.append('sum-of-number-and-dimensionless-unit')
     devs, mon = [], {}
     try:
         mu = T.meaning(case['u'])
